@@ -265,7 +265,7 @@ type wcase struct {
 	History []string     `json:"history"` // statements reaching Prior from the empty store
 	Stmt    *wstmt       `json:"stmt"`
 	B       int          `json:"b"`
-	Polls   string       `json:"polls"` // word over N(ext)/B(atch); first letter executes
+	Polls   string       `json:"polls"` // word over N(ext)/B(atch)/I(nit): the first poll executes, Init re-arms the plan and the next poll executes again
 }
 
 func (c *wcase) text() string {
@@ -273,10 +273,12 @@ func (c *wcase) text() string {
 }
 
 type pollResult struct {
-	rows []string
-	err  error
-	pan  string
-	log  []store.Op // storage calls during this poll
+	rows  []string
+	err   error
+	pan   string
+	log   []store.Op // storage calls during this poll
+	init  bool       // this step was plan.Init() (poll letter I), not a poll
+	state string     // contents of the store after this step
 }
 
 // runPolled builds the plan for q on st and applies the poll word.
@@ -300,7 +302,10 @@ func runPolled(q string, st *store.MemStore, b int, polls string) (buildErr erro
 					pr.pan = fmt.Sprint(r)
 				}
 			}()
-			if p == 'N' {
+			if p == 'I' {
+				pr.init = true
+				pr.err = plan.Init()
+			} else if p == 'N' {
 				cols, err := plan.Next(ctx)
 				pr.err = err
 				if cols != nil {
@@ -323,6 +328,7 @@ func runPolled(q string, st *store.MemStore, b int, polls string) (buildErr erro
 			}
 		}()
 		pr.log = append([]store.Op(nil), st.Log[mark:]...)
+		pr.state = st.Canon()
 		res = append(res, pr)
 	}
 	return nil, "", res, buildLog
@@ -337,7 +343,7 @@ func judgeWrite(c *wcase) (f *core.Failure, observed string) {
 	st := store.New(c.Prior)
 	q := c.Stmt.text()
 	berr, bpan, res, blog := runPolled(q, st, c.B, c.Polls)
-	post, writes, ok := modelStep(c.Stmt, st0(c.Prior))
+	post, _, ok := modelStep(c.Stmt, st0(c.Prior))
 	logStr := func(ops []store.Op) string {
 		parts := make([]string, len(ops))
 		for i, o := range ops {
@@ -362,6 +368,80 @@ func judgeWrite(c *wcase) (f *core.Failure, observed string) {
 		}
 		return nil, "rejected"
 	}
+	// a word with Init letters is a sequence of executions of the same plan:
+	// each is judged like a first execution, against the model step from the
+	// state the previous one left
+	if strings.ContainsRune(c.Polls, 'I') {
+		prior := st0(c.Prior)
+		var cyc []pollResult
+		firstSig, nCyc := "", 0
+		flush := func() (*core.Failure, string) {
+			if len(cyc) == 0 {
+				return nil, ""
+			}
+			// PUT / REMOVE do not read the store: every execution of the plan
+			// ends the same way (error or not) and issues the same calls
+			if c.Stmt.Kind == "put" || c.Stmt.Kind == "remove" {
+				sig := fmt.Sprintf("error=%v calls=", cyc[0].err != nil)
+				for _, pr := range cyc {
+					for _, o := range pr.log {
+						if o.Mutating() {
+							sig += o.String() + " "
+						}
+					}
+				}
+				if nCyc == 0 {
+					firstSig = sig
+				} else if sig != firstSig {
+					return mk("re-execution-differs", "execution 1: "+firstSig, fmt.Sprintf("execution %d: %s", nCyc+1, sig)), "x"
+				}
+				nCyc++
+			}
+			d := *c
+			d.Prior = prior
+			f, obs := judgeCycle(&d, c, cyc, cyc[len(cyc)-1].state, nil)
+			if p2, _, ok2 := modelStep(c.Stmt, prior); ok2 && cyc[0].err == nil {
+				prior = p2
+			}
+			cyc = nil
+			return f, obs
+		}
+		for _, pr := range res {
+			if pr.init {
+				if f, obs := flush(); f != nil {
+					return f, obs
+				}
+				if pr.pan != "" || pr.err != nil {
+					return mk("init-fails", "Init re-arms the plan", fmt.Sprintf("Init: err=%v panic=%s", pr.err, pr.pan)), "x"
+				}
+				for _, o := range pr.log {
+					if o.Mutating() {
+						return mk("write-in-init", "no mutating call in Init", logStr(pr.log)), "x"
+					}
+				}
+				continue
+			}
+			cyc = append(cyc, pr)
+		}
+		return flush()
+	}
+	return judgeCycle(c, c, res, st.Canon(), st)
+}
+
+// judgeCycle judges one execution of the plan (its first poll executes, the
+// others find it finished) from the state c.Prior; rep is the case reported.
+func judgeCycle(c, rep *wcase, res []pollResult, got string, st *store.MemStore) (f *core.Failure, observed string) {
+	mk := func(sig, exp, obs string) *core.Failure {
+		return &core.Failure{Property: rep.Prop, Leg: "transition-vs-model", Sig: sig, Case: rep.text(), Data: core.MustJSON(rep), Expected: exp, Observed: obs}
+	}
+	logStr := func(ops []store.Op) string {
+		parts := make([]string, len(ops))
+		for i, o := range ops {
+			parts[i] = o.String()
+		}
+		return strings.Join(parts, " ")
+	}
+	post, writes, ok := modelStep(c.Stmt, st0(c.Prior))
 	// polls: first executes; collect the mutating calls
 	var muts []store.Op
 	for i, pr := range res {
@@ -371,22 +451,21 @@ func judgeWrite(c *wcase) (f *core.Failure, observed string) {
 		for _, o := range pr.log {
 			if o.Mutating() {
 				if i > 0 {
-					return mk("write-on-later-poll", "writes are issued exactly once, by the first poll", fmt.Sprintf("poll %d (%c) issued %s", i, c.Polls[i], o)), "x"
+					return mk("write-on-later-poll", "writes are issued exactly once, by the first poll", fmt.Sprintf("poll %d of the execution (word %s) issued %s", i, rep.Polls, o)), "x"
 				}
 				muts = append(muts, o)
 			}
 		}
 		if i > 0 {
 			if len(pr.log) > 0 {
-				return mk("storage-call-on-later-poll", "no storage call after the statement finished", fmt.Sprintf("poll %d (%c): %s", i, c.Polls[i], logStr(pr.log))), "x"
+				return mk("storage-call-on-later-poll", "no storage call after the statement finished", fmt.Sprintf("poll %d of the execution (word %s): %s", i, rep.Polls, logStr(pr.log))), "x"
 			}
 			if len(pr.rows) > 0 || pr.err != nil {
-				return mk("result-on-later-poll", "end of stream", fmt.Sprintf("poll %d (%c) returned rows=%v err=%v", i, c.Polls[i], pr.rows, pr.err)), "x"
+				return mk("result-on-later-poll", "end of stream", fmt.Sprintf("poll %d of the execution (word %s) returned rows=%v err=%v", i, rep.Polls, pr.rows, pr.err)), "x"
 			}
 		}
 	}
 	first := res[0]
-	got := st.Canon()
 	observed = got + "|" + logStr(muts)
 	if first.err != nil {
 		if len(muts) > 0 {
@@ -456,6 +535,9 @@ func judgeWrite(c *wcase) (f *core.Failure, observed string) {
 		}
 	}
 	// follow-up reads observe the writes
+	if st == nil {
+		return nil, observed
+	}
 	for _, w := range writes {
 		st2 := st.Clone()
 		out := drv.Run("select * where key = '"+w.K+"'", st2, drv.Opt{Mode: drv.Row, B: c.B})
@@ -859,10 +941,15 @@ func (c12) RunUnit(t core.Tier, u int, r *core.Reporter) {
 			}
 		}
 	}
+	// the same plan executed again after Init (which re-arms it): every
+	// execution is the statement once more, a failing one fails again
+	rerun := []string{"NIN", "BIB", "NIB", "BNINB", "NINIB"}
 	for _, p1 := range pool {
 		run(&wstmt{Kind: "put", Pairs: [][2]*ref.Expr{p1}}, words4, []int{1, 32})
+		run(&wstmt{Kind: "put", Pairs: [][2]*ref.Expr{p1}}, rerun, []int{32})
 		for _, p2 := range pool {
 			run(&wstmt{Kind: "put", Pairs: [][2]*ref.Expr{p1, p2}}, words3, []int{1, 32})
+			run(&wstmt{Kind: "put", Pairs: [][2]*ref.Expr{p1, p2}}, rerun[:3], []int{32})
 			for _, p3 := range pool {
 				ws, bs := words2, []int{32}
 				if t == core.Thorough {
@@ -897,8 +984,10 @@ func (c12) RunUnit(t core.Tier, u int, r *core.Reporter) {
 	rp := c12RemovePool()
 	for _, k1 := range rp {
 		run(&wstmt{Kind: "remove", Keys: []*ref.Expr{k1}}, words4, []int{1, 32})
+		run(&wstmt{Kind: "remove", Keys: []*ref.Expr{k1}}, rerun, []int{32})
 		for _, k2 := range rp {
 			run(&wstmt{Kind: "remove", Keys: []*ref.Expr{k1, k2}}, words3, []int{1, 32})
+			run(&wstmt{Kind: "remove", Keys: []*ref.Expr{k1, k2}}, rerun[:3], []int{32})
 			for _, k3 := range rp {
 				run(&wstmt{Kind: "remove", Keys: []*ref.Expr{k1, k2, k3}}, words2, []int{32})
 			}
